@@ -59,7 +59,7 @@ func (k *Key) Private() *packet.PrivateKey {
 }
 
 func (k *Key) Validate() error {
-	if k.public == nil {
+	if k == nil || k.public == nil {
 		return fmt.Errorf("nil public key")
 	}
 	if !k.public.CanSign() {
